@@ -429,6 +429,11 @@ pub fn gen_adv(prop: &str, seed: u64, thorough: bool) -> Plan {
         [Transport::Tcp, Transport::Ws, Transport::Tls, Transport::Quic][(seed / cells.len() as u64 % 4) as usize]
     };
     let mut config = gen_config(&mut g, proto, cipher, transport, n_users);
+    // user names are free-form labels: now and then two registered users (different keys) carry the same one
+    if prop == "C06" && config.users.len() >= 2 && (seed / cells.len() as u64) % 3 == 1 {
+        let n0 = config.users[0].0.clone();
+        config.users[1].0 = n0;
+    }
     if proto == Proto::Shadowsocks && transport == Transport::Quic {
         // (the QUIC endpoint of a Shadowsocks server takes the place of its datagram service)
         config.client_mode = "tcp".into();
